@@ -57,3 +57,57 @@ def attach(rep: Any, prop: str, tier: str, d: str, jobs: int) -> None:
                                              "contract_failures_for_this_property": len(mine), "exhaustive": True}
     rep.coverage["states"] = rep.coverage.get("states", 0) + out["states"]
     rep.coverage["transitions"] = rep.coverage.get("transitions", 0) + out["generated"]
+
+
+WALK_CFG = "INIT Init\nNEXT Next\nINVARIANT Lockstep\nCHECK_DEADLOCK FALSE\n"
+
+
+def attach_walk(rep: Any, prop: str, tier: str, d: str, jobs: int) -> None:
+    """E4 on the design: ModelDump.tla writes the hierarchies Pipeline.tla builds from EVERY closed CFG of N nodes (every stage); Walk.tla
+    explores the product (both walks of C01, the dynamic clauses of C06) on them exactly as it does on states recorded from the code.
+    A failure is printed as DESIGN: and counted as drift, never as VIOLATION."""
+    ns = [2, 3, 4] if tier == "quick" else [2, 3, 4, 5]
+    rank = edits.rank_table([{"H": {str(i): {"jt": []} for i in range(8)}}], kmax=60)
+    rp = os.path.join(d, "walk-design-rank.json")
+    with open(rp, "w") as f:
+        json.dump(rank, f)
+    envs, outs = [], []
+    for n in ns:
+        for k in range(2, nchoices(n) + 1):        # shard 1 = entry without successors: a closed CFG only for n = 1
+            out = os.path.join(d, "model-%d-%02d.json" % (n, k))
+            envs.append({"N": str(n), "SHARD": str(k), "RANK": rp, "OUT": out})
+            outs.append((n, out))
+    results = tlc.run_shards("ModelDump", "INIT Init\nNEXT Next\nINVARIANT AllStages\nCHECK_DEADLOCK FALSE\n", envs, jobs=jobs, workers=1, timeout=20000, heap="3g")
+    tlc.require_ok(results, "ModelDump")
+    incomplete = sum(1 for r in results if r.violations)
+    bygraphs: Dict[int, int] = {}
+    live = []
+    for (n, out), r in zip(outs, results):
+        with open(out) as f:
+            cs = json.load(f)
+        bygraphs[n] = bygraphs.get(n, 0) + len(cs)
+        if cs:
+            live.append((n, out, cs))
+    for n, cnt in bygraphs.items():
+        if cnt != EXPECT[n]:
+            raise tlc.MachineryError("ModelDump enumerated %d closed CFGs with %d nodes, expected %d" % (cnt, n, EXPECT[n]))
+    wres = tlc.run_shards("Walk", WALK_CFG, [{"CASES": out} for _, out, _ in live], jobs=jobs, workers=1, timeout=20000, heap="3g")
+    tlc.require_ok(wres, "Walk (design)")
+    states = 0
+    fails = []
+    for (n, out, cs), tr in zip(live, wres):
+        states += tr.distinct
+        if tr.distinct < 2 * sum(len(c["stages"]) for c in cs):
+            raise tlc.MachineryError("Walk (design) explored fewer states than it has initial states")
+        for v in tr.violations:
+            st = tlc.parse_state(v["states"][-1])
+            mine = ("C06" in str(st["bad"])) == (prop == "C06")
+            if mine:
+                fails.append({"g": cs[st["tid"] - 1]["g"], "stage": st["sid"], "mode": st["mode"], "bad": st["bad"]})
+    for f_ in fails[:20]:
+        print("DESIGN: property=%s the pipeline model violates the walk on closed CFG %s (stage %s, %s walk): %s" % (prop, f_["g"], f_["stage"], f_["mode"], f_["bad"]))
+        rep.add_drift({"design_level": True, **f_})
+    rep.coverage["design_product_exploration"] = {"modules": "ModelDump.tla (Pipeline.tla) -> Walk.tla", "closed_cfgs_by_nodes": bygraphs, "product_states": states,
+                                                  "shards_where_the_model_did_not_reach_the_last_stage": incomplete, "failures_for_this_property": len(fails),
+                                                  "exhaustive": True}
+    rep.coverage["states"] = rep.coverage.get("states", 0) + states
